@@ -177,18 +177,6 @@ fn parse_rdnss(
     }
 }
 
-fn parse_domain(name: &str, fragment: &yaml::Yaml) -> Result<Option<String>, Error> {
-    match fragment {
-        yaml::Yaml::Null => Ok(None),
-        yaml::Yaml::String(s) => Ok(Some(s.into())),
-        e => Err(Error::InvalidConfig(format!(
-            "{} expected string, not {}",
-            name,
-            type_to_name(e),
-        ))),
-    }
-}
-
 fn parse_dnssl(
     name: &str,
     fragment: &yaml::Yaml,
@@ -199,7 +187,8 @@ fn parse_dnssl(
         for (k, v) in h {
             match (k.as_str(), v) {
                 (Some("domains"), a) => {
-                    domains = ConfigValue::from_option(parse_array("domains", a, parse_domain)?)
+                    domains =
+                        ConfigValue::from_option(parse_array("domains", a, parse_search_domain)?)
                 }
                 (Some("lifetime"), d) => {
                     lifetime = ConfigValue::from_option(parse_duration("lifetime", d)?)
